@@ -132,6 +132,8 @@ def explore(body, start_bb, root_is, mark_pred, init_constraints=None, max_paths
                     # on this path the tested local holds the result of that particular call
                     si_h = dict(si)
                     si_h["subject"] = body.call_term(cv_[1])
+            si_h = dict(si_h)
+            si_h["path"] = path
             hk = switch_hook(body, bb, si_h)
             if hk is not None:
                 hkey, hedges = hk
